@@ -240,3 +240,26 @@ def placeholder_problem(cell, example):
             return f"placeholder element shape {np.shape(c)} for element " \
                    f"shape {shape_of(e)}"
     return None
+
+
+# --------------------------------------------------------------------------- #
+#            a function whose failures are controlled from outside            #
+# --------------------------------------------------------------------------- #
+
+class FlakyError(RuntimeError):
+    pass
+
+
+def flaky_fn(_xv=None, **kw):
+    """_xv = (failfile, kind).  Raises FlakyError if kw['a'] is listed in the
+    JSON side file (which may change after the crop was sown)."""
+    failfile, kind = _xv
+    LOG.append(dict(kw))
+    try:
+        with open(failfile) as f:
+            bad = json.load(f)
+    except FileNotFoundError:
+        bad = []
+    if plain(kw.get("a")) in bad:
+        raise FlakyError(f"told to fail at a={kw.get('a')}")
+    return result_of(kind, kw)
